@@ -357,6 +357,31 @@ void explore08(Options const& o, std::vector<Shim*> const& shims, std::vector<Sh
     }
   rec.add_states(n, 2 * n, n); rec.count("in_scope_comparison_states", n);
   }
+  // (1d) call-history independence: the value for B right after a call with A equals the value for B in any other context
+  {
+  std::vector<i64> H = S_set(2, 1, true);
+  for( i64 d : { 65536ll + 5, 65446ll, 131071ll, 1ll << 16, (1ll << 16) - 90, (1ll << 32) + 7, (1ll << 32) - 1 } ) { H.push_back(d); H.push_back(-d); }
+  std::sort(H.begin(), H.end()); H.erase(std::unique(H.begin(), H.end()), H.end());
+  u64 n = 0;
+  for( size_t ci = 0; ci < shims.size(); ++ci )
+    {
+    if( !th && ci % 3 != 0 ) continue;
+    Shim* s = shims[ci]; int c_h = rec.cls("C08.result_depends_on_previous_call");
+    parallel_blocks(U_COUNT, o.threads, [&](size_t opi, int) {
+      int op = static_cast<int>(opi); LocalViol lv(rec);
+      std::vector<i64> base(H.size());
+      for( size_t i = 0; i < H.size(); ++i ) { int sg = guarded([&]{ base[i] = s->fm_un(op, H[i]); }); if( sg ) base[i] = static_cast<i64>(TRAPPED); }
+      for( size_t ia = 0; ia < H.size(); ++ia ) for( size_t ib = 0; ib < H.size(); ++ib )
+        {
+        i64 g = 0; int sg = guarded([&]{ s->fm_un(op, H[ia]); g = s->fm_un(op, H[ib]); }); if( sg ) g = static_cast<i64>(TRAPPED);
+        if( g != base[ib] ) { i64 A = H[ia], B = H[ib], e = base[ib]; lv.hit(c_h, (static_cast<u64>(ci) << 56) | (static_cast<u64>(op) << 40) | (ia * H.size() + ib), [=]{ Example ex; ex.entry = "unary entry point #" + std::to_string(op) + ": f(A); f(B)"; ex.cfg = s->name;
+            ex.inputs = {{"A", to_s(A)}, {"B", to_s(B)}}; ex.expected = to_s(e) + " (f(B) in the ascending sweep)"; ex.got = to_s(g); ex.rcase = "hist"; ex.rin = { to_s(op), to_s(A), to_s(B), "0" }; return ex; }); }
+        }
+      });
+    n += static_cast<u64>(U_COUNT) * H.size() * H.size();
+    }
+  rec.add_states(n, 2 * n, n); rec.count("two_call_history_states", n);
+  }
   // (3) the two square-root algorithms never differ by more than one ulp
   {
   int c = rec.cls("C08.sqrt_algorithms_differ_by_more_than_1ulp");
@@ -396,6 +421,11 @@ void replay08(Options const& o, Shim* s, Recorder& rec)
     { int bin = static_cast<int>(parse_i64(o.rin.at(0))), op = static_cast<int>(parse_i64(o.rin.at(1))), ki = static_cast<int>(parse_i64(o.rin.at(2))), kj = static_cast<int>(parse_i64(o.rin.at(3)));
       i64 a = 0, b = 0; int sg = guarded([&]{ if( bin ) { a = s->fm_bin_constarg(op, ki, kj); b = s->fm_bin(op, s->fm_constarg_value(1, ki), s->fm_constarg_value(1, kj)); } else { a = s->fm_un_constarg(op, ki); b = s->fm_un(op, s->fm_constarg_value(0, ki)); } });
       if( sg || a != b ) rec.viol(rec.cls("C08.constant_argument_result_differs.replay"), 0, [&]{ Example e; e.entry = "constant-argument instantiation"; e.cfg = o.rcfg; e.expected = to_s(b); e.got = to_s(a); e.rcase = o.rcase; e.rin = o.rin; return e; });
+      return; }
+  if( o.rcase == "hist" )
+    { int op = static_cast<int>(parse_i64(o.rin.at(0))); i64 A = parse_i64(o.rin.at(1)), B = parse_i64(o.rin.at(2));
+      i64 fresh = s->fm_un(op, B); s->fm_un(op, B); i64 again = s->fm_un(op, B); s->fm_un(op, A); i64 g = s->fm_un(op, B);
+      if( g != fresh || again != fresh ) rec.viol(rec.cls("C08.result_depends_on_previous_call"), 0, [&]{ Example ex; ex.entry = "f(A); f(B)"; ex.cfg = o.rcfg; ex.expected = to_s(fresh); ex.got = to_s(g); ex.rcase = o.rcase; ex.rin = o.rin; return ex; });
       return; }
   if( o.rcase == "mask" )
     { int bin = static_cast<int>(parse_i64(o.rin.at(0))), op = static_cast<int>(parse_i64(o.rin.at(1))); i64 a = parse_i64(o.rin.at(2)), b = parse_i64(o.rin.at(3));
